@@ -182,3 +182,45 @@ func HarnessC01Names() {
 	tpl.Execute(Context{"x": "v", "y": []int{1, 2}, "l": []int{1, 2}})
 	tpl.Execute(Context{"x": c08Stringer(1), "y": map[string]int{"k": 1}, "l": "ab"})
 }
+
+// (5) binary expressions over operands of every kind (symbolic payloads): whatever the
+// operand kinds and values, evaluation returns a value or an error, never a panic.
+func HarnessC01Expr() {
+	ops := []string{"+", "-", "*", "/", "%", "<", "<=", "==", "!=", "in", "and", "or"}
+	op := ops[verifChoice(len(ops))]
+	fb := verifByte() // a float of small magnitude: fb/8 - 4  (incl. values strictly between -1 and 1)
+	operand := func(name string) any {
+		switch verifChoice(8) {
+		case 0:
+			return int(verifByte()) - 128
+		case 1:
+			return float64(int(fb)-32) / 8
+		case 2:
+			return verifFloat()
+		case 3:
+			d := verifByte()
+			verifAssume(d >= '0')
+			verifAssume(d <= '9')
+			return "0." + string([]byte{d})
+		case 4:
+			return nil
+		case 5:
+			return verifBool()
+		case 6:
+			return []int{1}
+		default:
+			return symStringLen(0, 1)
+		}
+	}
+	a, b := operand("a"), operand("b")
+	src := "{% if a " + op + " b %}y{% endif %}"
+	verifObserve("src", src)
+	set := NewSet("verif", &memLoader{})
+	tpl, err := set.FromString(src)
+	verifAssert(err == nil, "binary expression must compile")
+	tpl.Execute(Context{"a": a, "b": b})
+	neg, err := set.FromString("{% if -a " + op + " b %}{% endif %}{% if not a " + op + " b %}{% endif %}")
+	if err == nil {
+		neg.Execute(Context{"a": a, "b": b})
+	}
+}
